@@ -6,6 +6,7 @@ import CoapVerif.Lemmas.BlockSrcvHostile
 import CoapVerif.Lemmas.BlockXmit
 import CoapVerif.Lemmas.BlockRtag
 import CoapVerif.Lemmas.BlockNet
+import CoapVerif.Lemmas.BlockTok
 /-
 C09 — block-wise transfer: the sender's body arrives intact, once, or the transfer fails explicitly.
 
@@ -832,6 +833,151 @@ example :
     s.outs.getLast? = some (SrcvOut.deliver exPar1.body 200) ∧ s.srv = none ∧
     (s.outs.filter (fun o => match o with | .deliver _ _ => true | _ => false)).length = 1 := by
   decide +kernel
+
+/-! ## Client: what the application's handlers see of a transfer libcoap runs under tokens of its own
+
+`Model/BlockTok.lean`: `crcvStepS` = `coap_handle_response_get_block` with `sent` possibly NULL (every Non-confirmable or
+separate response, and every message nobody waits for, arrives that way), T2 op `crcvs`; `checkUpdateToken` =
+`coap_check_update_token`, which `coap_handle_nack` runs over the abandoned PDU in front of the NACK handler, T2 op `ctok`.
+Whole transfers (timers, retransmission to exhaustion, two transfers on one session, late copies) are trace-checked by the
+`xfer` op with content-keyed fault rules. -/
+
+/-- "at most once per transfer", the part the lg_crcv cannot do because it is gone: a response that carries a Block2
+option, meets no lg_crcv and was matched to no request (`sent == NULL`) — a duplicate or delayed copy of ANY block of a
+transfer that was completed or given up, More bit set or not — is dropped; the handler is not called, no state appears. -/
+theorem block2_unsolicited_dropped (single : Bool) (cap : Nat) (junk : UInt8) (r : Resp) (hb : r.blk ≠ none) :
+    crcvStepS false single cap junk none r = (none, CrcvOut.skip) :=
+  crcvStepS_unsolicited single cap junk r hb
+
+/-- Along EVERY run (any responses, with or without `sent`, any state to start from): the step that hands the reassembled
+body (single-body) or the completing block (per-block) to the handler releases the lg_crcv, and of the Block2 responses
+that arrive afterwards without a request outstanding (`post`: duplicates, late copies, in any number and order) none
+reaches the handler. -/
+theorem at_most_once_block2_unsolicited (single : Bool) (cap : Nat) (junk : UInt8) (st : Option Crcv)
+    (pre : List (Bool × Resp)) (x : Bool × Resp) (post : List (Bool × Resp))
+    (hpost : ∀ y, y ∈ post → y.1 = false ∧ y.2.blk ≠ none) :
+    let res := crcvStepS x.1 single cap junk (stateCrcvS single cap junk st pre) x.2
+    res.2.isFinal = true →
+      res.1 = none ∧ ∀ o, o ∈ runCrcvS single cap junk res.1 post → o = CrcvOut.skip := by
+  intro res hf
+  have hn : res.1 = none := crcvStepS_final_none _ _ _ _ _ _ hf
+  refine ⟨hn, ?_⟩
+  rw [hn]
+  exact runCrcvS_none_unsolicited single cap junk post hpost
+
+/-- A Non-confirmable Block2 transfer (every response arrives with `sent == NULL`), EVERY response sequence — any order,
+any duplicates, any late copies, hostile or not — from any state: the body / the completing block is handed over at most
+once. -/
+theorem at_most_once_block2_non (single : Bool) (cap : Nat) (junk : UInt8) (st : Option Crcv) (xs : List (Bool × Resp))
+    (hx : ∀ x, x ∈ xs → x.1 = false ∧ x.2.blk ≠ none) :
+    ((runCrcvS single cap junk st xs).filter (fun o => o.isFinal)).length ≤ 1 :=
+  runCrcvS_final_le_one single cap junk xs st hx
+
+set_option maxRecDepth 100000 in
+/-- non-vacuity: 40 bytes in 16-byte blocks over NON, the lg_crcv set up at send time; the last block arrives twice, then a
+late copy of block 0: one hand-over, the copies are dropped -/
+example :
+    let body : Bytes := (List.range 40).map (fun i => UInt8.ofNat i)
+    let rsp (k m : Nat) : Bool × Resp := (false, { blk := some (k, m, 0), payload := slice body 0 k })
+    runCrcvS true 4 0 (some {}) [rsp 0 1, rsp 1 1, rsp 2 0, rsp 2 0, rsp 0 1] =
+      [.next 1 0, .next 2 0, .body body 40, .skip, .skip] := by decide
+
+/-- the tokens libcoap puts on the wire for a transfer all have the transfer's base: STATE_TOKEN_BASE(STATE_TOKEN_FULL(t, r))
+= STATE_TOKEN_BASE(t) for every retry counter r -/
+theorem wire_token_base (t r : Nat) : stateTokenBase (stateTokenFull t r) = stateTokenBase t := by
+  unfold stateTokenFull stateTokenBase
+  have h1 : (t % 2 ^ 44 + r * 2 ^ 44) % 2 ^ 64 % 2 ^ 44 = (t % 2 ^ 44 + r * 2 ^ 44) % 2 ^ 44 :=
+    Nat.mod_mod_of_dvd _ (by decide)
+  rw [h1, Nat.add_mul_mod_self_right, Nat.mod_mod]
+
+/-- "handlers only ever see the application's own token", NACK handler: whenever the abandoned PDU's token belongs to a
+transfer the session still holds — as the application token or as any wire token of an lg_crcv, or (requests) of an
+lg_xmit, at ANY position of the lists — the PDU shown to the handler carries an application token of one of the
+session's transfers.  No hypothesis on the tokens. -/
+theorem nack_shows_application_token (crcvs xmits : List TokEnt) (isReq : Bool) (tok : Bytes)
+    (h : (∃ e, e ∈ crcvs ∧ (tok = e.appTok ∨ stateTokenBase (decodeVar8 tok) = stateTokenBase e.state)) ∨
+         (isReq = true ∧ ∃ e, e ∈ xmits ∧ (tok = e.appTok ∨ stateTokenBase (decodeVar8 tok) = stateTokenBase e.state))) :
+    ∃ e, e ∈ crcvs ++ xmits ∧ checkUpdateToken crcvs xmits isReq tok = e.appTok := by
+  unfold checkUpdateToken
+  dsimp only
+  cases hc : tokScan (stateTokenBase (decodeVar8 tok)) tok crcvs with
+  | some t =>
+    obtain ⟨e, he, ht, _⟩ := tokScan_some _ _ _ _ hc
+    exact ⟨e, by simp [he], ht⟩
+  | none =>
+    have hnone := tokScan_none _ _ _ hc
+    rcases h with ⟨e, he, hm⟩ | ⟨hr, e, he, hm⟩
+    · rcases hm with hm | hm
+      · exact absurd hm (hnone e he).1
+      · exact absurd hm (hnone e he).2
+    · subst hr
+      simp only [if_true]
+      cases hx : tokScan (stateTokenBase (decodeVar8 tok)) tok xmits with
+      | some t =>
+        obtain ⟨e', he', ht, _⟩ := tokScan_some _ _ _ _ hx
+        exact ⟨e', by simp [he'], ht⟩
+      | none =>
+        have hn2 := tokScan_none _ _ _ hx
+        rcases hm with hm | hm
+        · exact absurd hm (hn2 e he).1
+        · exact absurd hm (hn2 e he).2
+
+/-- … and it is the token of THAT transfer: state tokens identify transfers (entries with the same base — an lg_xmit and the
+lg_crcv `coap_send` sets up for it — carry the same application token: `hfun`; libcoap numbers them from
+`session->tx_token`), the application has not chosen a token that is also on the wire (`hnot`).  Then for the transfer `e`
+the abandoned PDU's token was derived from, in the lg_crcv list or (requests) the lg_xmit list, first or last: the NACK
+handler is shown `e`'s application token. -/
+theorem nack_token_of_its_transfer (crcvs xmits : List TokEnt) (isReq : Bool) (tok : Bytes) (e : TokEnt)
+    (he : e ∈ crcvs ∨ (isReq = true ∧ e ∈ xmits))
+    (hm : stateTokenBase (decodeVar8 tok) = stateTokenBase e.state)
+    (hfun : ∀ e1 e2, e1 ∈ crcvs ++ xmits → e2 ∈ crcvs ++ xmits →
+      stateTokenBase e1.state = stateTokenBase e2.state → e1.appTok = e2.appTok)
+    (hnot : ∀ e', e' ∈ crcvs ++ xmits → tok ≠ e'.appTok) :
+    checkUpdateToken crcvs xmits isReq tok = e.appTok := by
+  have hmem : e ∈ crcvs ++ xmits := by
+    rcases he with he | ⟨_, he⟩
+    · simp [he]
+    · simp [he]
+  unfold checkUpdateToken
+  dsimp only
+  cases hc : tokScan (stateTokenBase (decodeVar8 tok)) tok crcvs with
+  | some t =>
+    obtain ⟨e', he', ht, hw⟩ := tokScan_some _ _ _ _ hc
+    have hmem' : e' ∈ crcvs ++ xmits := by simp [he']
+    rcases hw with hw | hw
+    · exact absurd hw (hnot e' hmem')
+    · dsimp only
+      rw [ht]
+      exact hfun e' e hmem' hmem (by rw [← hw, hm])
+  | none =>
+    have hnone := tokScan_none _ _ _ hc
+    rcases he with he | ⟨hr, he⟩
+    · exact absurd hm (hnone e he).2
+    · subst hr
+      simp only [if_true]
+      obtain ⟨t, hx⟩ := tokScan_finds _ tok xmits e he hm
+      rw [hx]
+      obtain ⟨e', he', ht, hw⟩ := tokScan_some _ _ _ _ hx
+      have hmem' : e' ∈ crcvs ++ xmits := by simp [he']
+      rcases hw with hw | hw
+      · exact absurd hw (hnot e' hmem')
+      · dsimp only
+        rw [ht]
+        exact hfun e' e hmem' hmem (by rw [← hw, hm])
+
+/-- non-vacuity (the two-transfers case): transfer A (application token a1a2, state token 1) was started first, transfer B
+(b1b2b3, state token 2) second, so B's lg_crcv is the head of the list; A's request for a following block went out under
+the wire token STATE_TOKEN_FULL(1, 3) = 0x300000000001 and is abandoned: the NACK handler is shown a1a2.  A PUT's follow-up
+block is found through the lg_xmit list. -/
+example :
+    let A : TokEnt := { appTok := [0xa1, 0xa2], state := 1 }
+    let B : TokEnt := { appTok := [0xb1, 0xb2, 0xb3], state := 2 }
+    stateTokenFull 1 3 = 0x300000000001 ∧ decodeVar8 [0x30, 0, 0, 0, 0, 0x01] = 0x300000000001 ∧
+    checkUpdateToken [B, A] [] true [0x30, 0, 0, 0, 0, 0x01] = [0xa1, 0xa2] ∧
+    checkUpdateToken [B] [A] true [0x30, 0, 0, 0, 0, 0x01] = [0xa1, 0xa2] ∧
+    checkUpdateToken [B, A] [] true [0xb1, 0xb2, 0xb3] = [0xb1, 0xb2, 0xb3] ∧
+    checkUpdateToken [B, A] [] true [0x77] = [0x77] := by decide
+
 
 /-! non-vacuity: concrete instances of the hypotheses -/
 example : setupBlockB 64 6 3 6 5000 = some { num := 96, m := 1, szx := 1, aszx := 1, chunk := 32 } := by decide
